@@ -915,14 +915,63 @@ def _plumbed(prog, runf, chain, f, pname, run_pname):
     if not (isinstance(a, ast.Name) and a.id in chain.params and not _stores(chain.node, a.id)):
         return False
     q = a.id
-    direct = [c for c in calls(runf.node) if last_name(c) == chain.name]
-    submitted = [c for c in calls(runf.node) if isinstance(c.func, ast.Attribute) and c.func.attr in ("submit", "apply_async", "apply") and c.args and isinstance(c.args[0], ast.Name) and c.args[0].id == chain.name]
-    if not direct and not submitted:
+    # keyword tables built once in run.run (`chain_kwargs = dict(thin=thin, ...)`) and handed on with `**chain_kwargs`,
+    # possibly through one helper newer than the rules that receives the table as a parameter
+    def tables_of(fn_node):
+        out = {}
+        for n in ast.walk(fn_node):
+            if isinstance(n, ast.Assign) and len(n.targets) == 1 and isinstance(n.targets[0], ast.Name):
+                v, d = n.value, None
+                if isinstance(v, ast.Call) and isinstance(v.func, ast.Name) and v.func.id == "dict" and not v.args and all(k.arg for k in v.keywords):
+                    d = {k.arg: k.value for k in v.keywords}
+                elif isinstance(v, ast.Dict) and all(isinstance(k, ast.Constant) and isinstance(k.value, str) for k in v.keys):
+                    d = {k.value: x for k, x in zip(v.keys, v.values)}
+                if d is not None:
+                    out.setdefault(n.targets[0].id, []).append(d)
+        tabs = {k: v[0] for k, v in out.items() if len(v) == 1}
+        for k in list(tabs):  # a table that is edited after it was built is not followed
+            if any((isinstance(n, ast.Subscript) and isinstance(n.ctx, (ast.Store, ast.Del)) and isinstance(n.value, ast.Name) and n.value.id == k)
+                   or (isinstance(n, ast.Call) and isinstance(n.func, ast.Attribute) and isinstance(n.func.value, ast.Name) and n.func.value.id == k and n.func.attr in ("update", "pop", "setdefault", "clear", "popitem"))
+                   for n in ast.walk(fn_node)):
+                del tabs[k]
+        return tabs
+
+    def sites_in(fn_node):
+        d = [c for c in calls(fn_node) if last_name(c) == chain.name]
+        s_ = [c for c in calls(fn_node) if isinstance(c.func, ast.Attribute) and c.func.attr in ("submit", "apply_async", "apply") and c.args and isinstance(c.args[0], ast.Name) and c.args[0].id == chain.name]
+        return [(c, 0) for c in d] + [(c, 1) for c in s_]
+
+    def arg_of(c, shift, env):
+        b = _arg_at(c, chain, q, shift)
+        if b is None:
+            for kw in c.keywords:
+                if kw.arg is None and isinstance(kw.value, ast.Name) and kw.value.id in env and q in env[kw.value.id]:
+                    return env[kw.value.id][q]
+        return b
+
+    run_tabs = tables_of(runf.node)
+    found = [(c, shift, run_tabs) for c, shift in sites_in(runf.node)]
+    for hc in calls(runf.node):
+        h = prog.resolve_function(hc.func.id, runf.module) if isinstance(hc.func, ast.Name) else None
+        if h is None or not prog.is_new_function(h) or h is chain:
+            continue
+        env = {}
+        for i, a in enumerate(hc.args):
+            if isinstance(a, ast.Name) and a.id in run_tabs and i < len(h.params):
+                env[h.params[i]] = run_tabs[a.id]
+        for kw in hc.keywords:
+            if kw.arg and isinstance(kw.value, ast.Name) and kw.value.id in run_tabs:
+                env[kw.arg] = run_tabs[kw.value.id]
+        for c, shift in sites_in(h.node):
+            found.append((c, shift, env))
+    if not found:
         raise AnalysisError("run.run never calls run_phyclone_chain")
     if run_pname not in runf.params:
         raise AnalysisError("run.run has no parameter %s" % run_pname)
-    for c, shift in [(c, 0) for c in direct] + [(c, 1) for c in submitted]:
-        b = _arg_at(c, chain, q, shift)
+    for c, shift, env in found:
+        b = arg_of(c, shift, env)
+        if b is None and any(kw.arg is None for kw in c.keywords):
+            raise AnalysisError("%s reaches run_phyclone_chain through **%s, which is not a table built once in run.run" % (run_pname, u([kw.value for kw in c.keywords if kw.arg is None][0])))
         if not (isinstance(b, ast.Name) and b.id == run_pname):
             return False
     return not _stores(runf.node, run_pname)
